@@ -337,6 +337,15 @@ def refusal_texts():
             variants.append(data + [0, 0])
             for d in variants:
                 out.append(hrp + '1' + ''.join(B32.CHARSET[x] for x in d + B32.checksum(hrp, d)))
+    # well-formed witness-v0 / v1 strings under the chain's prefix whose checksum was made with another final constant (the
+    # BIP350 / bech32m one, 0, 2): not BIP173 addresses
+    for hrp in ('bc', 'tb', 'bcrt'):
+        for ver, l in ((0, 20), (0, 32), (1, 32)):
+            d = [ver] + B32.to5(C.fill(l, 11))
+            rem = B32.poly_rem(B32.hrp_expand(hrp) + d + [0] * 6)
+            for const in (0x2bc830a3, 0, 2):
+                cs = [rem[i] ^ ((const >> 5 * (5 - i)) & 31) for i in range(6)]
+                out.append(hrp + '1' + ''.join(B32.CHARSET[x] for x in d + cs))
     base = ref_text('mainnet', 'p2pkh', P20[2])
     seg = ref_text('mainnet', 'p2wpkh', P20[2])
     for u in UNICODE:
